@@ -135,7 +135,15 @@ impl ParsedPacket {
 
     /// Changes the transaction ID.
     pub fn set_tid(&mut self, tid: u16) {
-        BigEndian::write_u16(&mut self.packet_mut()[DNS_TID_OFFSET..], tid)
+        BigEndian::write_u16(&mut self.packet_mut()[DNS_TID_OFFSET..], tid);
+        self.header_changed();
+    }
+
+    /// A name can be written through a compression pointer into the header: the
+    /// cached question must not outlive a change of the header bytes.
+    #[inline]
+    fn header_changed(&mut self) {
+        self.cached = None;
     }
 
     /// Returns the flags, including extended flags.
@@ -160,6 +168,7 @@ impl ParsedPacket {
         v &= 0x7800 | 0x000f; // keep opcode and rcode
         v |= rflags;
         BigEndian::write_u16(&mut self.packet_mut()[DNS_FLAGS_OFFSET..], v);
+        self.header_changed();
     }
 
     /// Check if this is a question with the DO bit, or a response with the AD
@@ -189,6 +198,7 @@ impl ParsedPacket {
             oll &= !(DNS_FLAG_QR as u16)
         }
         BigEndian::write_u16(&mut self.packet_mut()[DNS_FLAGS_OFFSET..], oll);
+        self.header_changed();
     }
 
     /// Returns the return code.
@@ -203,6 +213,7 @@ impl ParsedPacket {
         let p = &mut self.packet_mut()[DNS_FLAGS_OFFSET + 1];
         *p &= !0x0f;
         *p |= rcode & 0x0f;
+        self.header_changed();
     }
 
     /// Returns the opcode.
@@ -217,6 +228,7 @@ impl ParsedPacket {
         let p = &mut self.packet_mut()[DNS_FLAGS_OFFSET];
         *p &= !0x78;
         *p |= (opcode << 3) & 0x78;
+        self.header_changed();
     }
 
     /// Maximum payload size when using UDP
@@ -256,6 +268,7 @@ impl ParsedPacket {
             Section::Additional => DNSSector::set_arcount(packet, rrcount),
             _ => panic!("EDNS section doesn't have a records count"),
         }
+        self.header_changed();
         Ok(rrcount)
     }
 
@@ -283,7 +296,7 @@ impl ParsedPacket {
             Section::Additional => DNSSector::set_arcount(packet, rrcount),
             _ => panic!("EDNS section doesn't have a records count"),
         }
-
+        self.header_changed();
         Ok(rrcount)
     }
 
